@@ -42,7 +42,7 @@ SEMANTIC = ('R12.1', 'R12.2', 'R12.4::match::every-emitted-group-is-ordered', 'R
 
 
 def run(chk):
-    repo = PyRepo()
+    repo = PyRepo(inline=True)
     chk.set_templates(repo, semantic=SEMANTIC)
     chk.explanation = MANIFEST["text"]
     chk.trusted = ["clang 14 AST", "SWIG naming convention", "std::sort", "CPython ast", "sympy normaliser"]
@@ -726,14 +726,20 @@ def python_rules(chk, repo, m):
         for n, ok in res.items():
             chk.ob("R12.7", "%s::%s-becomes-fresh-float64-1d" % (fi.qualname.split("htm.htm.")[-1], n), ok, fi.where(),
                    "`%s = np.atleast_1d(%s).astype('f8')`: a fresh, native, 1-d float64 array (the C++ side reads *(double*) elements through the strides)" % (n, n))
-    tests = _size_checks(mi)
-    chk.ob("R12.7", "Matcher.__init__::ra-dec-size-check", "ra.size != dec.size" in tests, mi.where(), "unequal coordinate arrays are rejected (%s)" % tests)
-    tests = _size_checks(mm)
-    chk.ob("R12.7", "Matcher.match::size-checks", "ra.size != dec.size" in tests and "radius.size != 1 and radius.size != ra.size" in tests, mm.where(),
-           "unequal coordinate arrays and a radius array of the wrong length are rejected (the C++ loop indexes the radius with the point index)")
-    tests = _size_checks(hm)
-    chk.ob("R12.7", "HTM.match::size-checks", any(t.startswith("ra1.size != dec1.size") for t in tests) and "radius.size != 1 and radius.size != ra1.size" in tests, hm.where(),
-           "first-set sizes and the radius length are checked before delegation (%s)" % tests)
+    def _size(a):
+        return ast.parse("%s.size" % a, mode="eval").body
+
+    def _want(src):
+        return rules.bool_term(ast.parse(src, mode="eval").body)
+    rc = rules.raise_condition(mi)
+    chk.ob("R12.7", "Matcher.__init__::ra-dec-size-check", rules.bool_implies(_want("ra.size != dec.size"), rc), mi.where(),
+           "unequal coordinate arrays are rejected (raises when: %s)" % rc)
+    rc = rules.raise_condition(mm)
+    chk.ob("R12.7", "Matcher.match::size-checks", rules.bool_implies(_want("ra.size != dec.size or (radius.size != 1 and radius.size != ra.size)"), rc), mm.where(),
+           "unequal coordinate arrays and a radius array of the wrong length are rejected (the C++ loop indexes the radius with the point index); raises when: %s" % rc)
+    rc = rules.raise_condition(hm)
+    chk.ob("R12.7", "HTM.match::size-checks", rules.bool_implies(_want("ra1.size != dec1.size or (radius.size != 1 and radius.size != ra1.size)"), rc), hm.where(),
+           "first-set sizes and the radius length are checked before delegation (raises when: %s)" % rc)
     # super().__init__(depth, ra, dec) and super().match(ra, dec, radius, maxmatch, filename) in C++ order
     sup = [c for c in walk_no_nested(mi.node) if isinstance(c, ast.Call) and call_name(c) == "__init__"]
     ok = len(sup) == 1 and [norm(a) for a in sup[0].args] == ["depth", "ra", "dec"]
@@ -754,10 +760,8 @@ def python_rules(chk, repo, m):
     chk.ob("R12.7", "check_filename[None,convert_none]", r1 == "", cf.where(), "check_filename(None, convert_none=True) == '' (got %r)" % (r1,))
     # one-shot: Matcher(depth, ra2, dec2).match(ra1, dec1, radius, maxmatch=maxmatch, file=filename)
     ctor = [c for c in walk_no_nested(hm.node) if isinstance(c, ast.Call) and call_name(c) == "Matcher"]
-    ok = len(ctor) == 1 and [norm(a) for a in ctor[0].args[1:]] == ["ra2", "dec2"]
-    dv = norm(ctor[0].args[0]) if ok else None
-    ddef = [x for x in walk_no_nested(hm.node) if isinstance(x, ast.Assign) and norm(x.targets[0]) == dv]
-    ok = ok and len(ddef) == 1 and norm(ddef[0].value) == "self.get_depth()"
+    ok = len(ctor) == 1 and len(ctor[0].args) == 3 and [norm(a) for a in ctor[0].args[1:]] == ["ra2", "dec2"]
+    ok = ok and rules.xnorm(ctor[0].args[0], hm.node) == "self.get_depth()"
     chk.ob("R12.7", "HTM.match::builds-matcher-on-second-set-at-own-depth", bool(ok), hm.where(), "the one-shot method builds Matcher(self.get_depth(), ra2, dec2)")
     calls = [c for c in walk_no_nested(hm.node) if isinstance(c, ast.Call) and isinstance(c.func, ast.Attribute) and c.func.attr == "match" and not (isinstance(c.func.value, ast.Call))]
     ok = len(calls) == 1 and [norm(a) for a in calls[0].args] == ["ra1", "dec1", "radius"] and kwarg(calls[0], "maxmatch") is not None and norm(kwarg(calls[0], "maxmatch")) == "maxmatch" \
@@ -776,15 +780,21 @@ def python_rules(chk, repo, m):
     fmt = getattr(m, "fmt", None)
     dt = None
     delim = None
+    okmode = False
     for x in walk_no_nested(rp.node):
-        if isinstance(x, ast.Assign) and norm(x.targets[0]) == "dtype":
-            try:
-                dt = ast.literal_eval(x.value)
-            except Exception:
-                dt = None
         if isinstance(x, ast.Call) and call_name(x) == "Recfile":
             delim = const_value(kwarg(x, "delim")) if kwarg(x, "delim") is not None else None
-            okmode = len(x.args) >= 2 and const_value(x.args[1]) == "r" and kwarg(x, "dtype") is not None and norm(kwarg(x, "dtype")) == "dtype"
+            dexpr = kwarg(x, "dtype")
+            okmode = len(x.args) >= 2 and const_value(x.args[1]) == "r" and dexpr is not None
+            if dexpr is not None:
+                # the dtype literal: written in place, a single-definition local, or a module-level constant
+                dexpr = rules.expand(dexpr, rp.node)
+                if isinstance(dexpr, ast.Name) and dexpr.id in rp.module.consts:
+                    dexpr = rp.module.consts[dexpr.id]
+                try:
+                    dt = ast.literal_eval(dexpr)
+                except Exception:
+                    dt = None
     ok = fmt is not None and dt is not None and delim is not None
     if ok:
         pd = cstr.printf_directives(fmt)
@@ -824,20 +834,11 @@ def quadtree_rule(chk):
         lvl = next((p for p in ps if p == "level"), None) or (ps[1] if callee == "setfull" else ps[0])
         calls = [x for x in walk(cfront.body_of(fn)) if x.get("kind") in ("CallExpr", "CXXMemberCallExpr") and callee_name(x) == callee]
         idpos = 0 if callee == "setfull" else 1
-        ids = sorted(render(cfront.call_args(c)[idpos]).replace(" ", "") for c in calls)
-        want = sorted(["(%s<<2)" % idp, "((%s<<2)+1)" % idp, "((%s<<2)+2)" % idp, "((%s<<2)+3)" % idp])
+        lvpos = 1 - idpos
         if calls:
-            g = cfront.CCFG(fn)
-            v = g.view()
-            arms = set()
-            for n in g.nodes:
-                if isinstance(n.c, dict) and any(x in calls for x in walk(n.c)):
-                    for b, lab in v.controlling_branches(n):
-                        if b.kind == "branch":
-                            arms.add((render(b.c).replace(" ", ""), lab))
-            ok = ids == want and arms == {("%s--" % lvl, "T")}
+            ok, why = _four_children(fn, calls, idp, lvl, idpos, lvpos)
             chk.ob("R12.9", nm + "::four-children-per-level", ok, where,
-                   "while levels remain the descent visits exactly the children (id<<2)+0..3 (found %s under %s)" % (ids, sorted(arms)))
+                   "while levels remain the descent visits exactly the children 4*id+0..3, one level down (%s)" % why)
         elif callee == "setfull":
             # closed form: a loop over consecutive leaf ids
             loops = [x for x in walk(cfront.body_of(fn)) if x.get("kind") in ("ForStmt", "WhileStmt")]
@@ -855,6 +856,162 @@ def quadtree_rule(chk):
                 chk.ob("R12.9", nm + "::expansion-recognised", None, where, "neither the four-way recursion nor a closed-form leaf loop was recognised")
         else:
             chk.ob("R12.9", nm + "::expansion-recognised", None, where, "the four sub-triangle tests were not found")
+
+
+INT_TYPES = ("int", "long", "unsigned", "size_t", "npy_intp", "npy_int64", "int64_t", "uint64", "int64", "uint32", "int32", "uint64_t", "int32_t", "uint32_t",
+             "Py_ssize_t", "ssize_t", "short", "char", "bool")
+
+
+def _is_int_typed(x):
+    q = (x.get("type") or {}).get("qualType", "")
+    q = q.replace("const ", "").replace("unsigned ", "").replace("signed ", "").replace(" int", "").strip()
+    return q in INT_TYPES
+
+
+def guard_facts(view, n):
+    """atomic facts that hold whenever node n runs, read off its controlling branches: relational atoms in the canonical
+    forms `a<b`, `a<=b`, `a==b`, `a!=b` (text without blanks); `!x` and the branch label set the polarity; `||` under a negative
+    polarity and `&&` under a positive one split into their parts; a negated comparison is flipped only for integer operands (for
+    floating-point operands !(a<=b) is not a>b: NaN), otherwise it is kept as the fact `!(a<=b)`."""
+    facts = set()
+
+    def rel(op, a, b, pos, ints):
+        ta, tb = render(a).replace(" ", ""), render(b).replace(" ", "")
+        if not pos:
+            if op in ("==", "!="):
+                op = "!=" if op == "==" else "=="
+            elif ints:
+                op = {"<": ">=", "<=": ">", ">": "<=", ">=": "<"}[op]
+            else:
+                op2, x, y = (op, ta, tb) if op in ("<", "<=") else ({">": "<", ">=": "<="}[op], tb, ta)
+                facts.add("!(%s%s%s)" % (x, op2, y))
+                return
+        if op in (">", ">="):
+            op, ta, tb = {">": "<", ">=": "<="}[op], tb, ta
+        if op in ("==", "!=") and tb < ta:
+            ta, tb = tb, ta
+        facts.add("%s%s%s" % (ta, op, tb))
+
+    def go(e, pos):
+        e = strip(e)
+        k = e.get("kind")
+        if k == "UnaryOperator" and e.get("opcode") == "!":
+            return go(e["inner"][0], not pos)
+        if k == "BinaryOperator" and e.get("opcode") in ("&&", "||"):
+            if (e["opcode"] == "&&") == pos:
+                go(e["inner"][0], pos)
+                go(e["inner"][1], pos)
+            else:
+                facts.add(("" if pos else "!") + "(" + render(e).replace(" ", "") + ")")
+            return
+        if k == "BinaryOperator" and e.get("opcode") in ("<", "<=", ">", ">=", "==", "!="):
+            a, b = e["inner"]
+            return rel(e["opcode"], a, b, pos, _is_int_typed(strip(a)) and _is_int_typed(strip(b)))
+        facts.add(("" if pos else "!") + render(e).replace(" ", ""))
+
+    for b, lab in view.controlling_branches(n):
+        if b.kind == "branch" and isinstance(b.c, dict):
+            go(b.c, lab == "T")
+    return facts
+
+
+def _assigned_names(fn):
+    out = set()
+    for x in walk(cfront.body_of(fn)):
+        k = x.get("kind")
+        if (k == "BinaryOperator" and x.get("opcode") == "=") or k == "CompoundAssignOperator" or (k == "UnaryOperator" and x.get("opcode") in ("++", "--")):
+            t = strip(x["inner"][0])
+            if t.get("kind") == "DeclRefExpr":
+                out.add(t["referencedDecl"]["name"])
+    return out
+
+
+def _four_children(fn, calls, idp, lvl, idpos, lvpos):
+    """(ok, text): are the recursive calls exactly on 4*id+0..3 with one level less, made exactly while levels remain.  Decided on
+    terms: locals that are defined once are folded in, a counted loop `for (k = 0; k < 4; k++)` around a call stands for its four
+    iterations, `x << 2` is 4*x."""
+    import sympy as sp
+    assigned = _assigned_names(fn)
+    low = csymx.Lower(fn)
+    loopvars = {}
+    for x in walk(cfront.body_of(fn)):
+        if x.get("kind") == "ForStmt":
+            parts = x.get("inner", [])
+            if len(parts) >= 5 and isinstance(parts[0], dict) and parts[0].get("kind") == "DeclStmt":
+                vd = [v for v in parts[0].get("inner", []) if v.get("kind") == "VarDecl"]
+                cond, inc = parts[2], parts[3]
+                if len(vd) == 1 and init_of(vd[0]) is not None and cond and inc:
+                    k = vd[0]["name"]
+                    try:
+                        i0 = low.expr(init_of(vd[0]))
+                        c = low.expr(cond)
+                    except Exception:
+                        continue
+                    incs = strip(inc)
+                    if incs.get("kind") == "UnaryOperator" and incs.get("opcode") == "++" and i0.is_Integer and c.is_Relational \
+                            and c.lhs == sp.Symbol(k) and c.rhs.is_Integer and c.rel_op in ("<", "<="):
+                        hi = int(c.rhs) + (1 if c.rel_op == "<=" else 0)
+                        writes_in_body = {t for t in assigned if t == k}
+                        body_incs = [y for y in walk(parts[4]) if y.get("kind") in ("UnaryOperator", "CompoundAssignOperator", "BinaryOperator")
+                                     and y.get("opcode") in ("++", "--", "=", "+=", "-=") and strip(y["inner"][0]).get("kind") == "DeclRefExpr"
+                                     and strip(y["inner"][0])["referencedDecl"]["name"] == k] if len(parts) > 4 and isinstance(parts[4], dict) else []
+                        if not body_incs:
+                            loopvars[id(x)] = (k, list(range(int(i0), hi)), x)
+    for x in walk(cfront.body_of(fn)):
+        if x.get("kind") == "VarDecl" and init_of(x) is not None and x["name"] not in assigned and x["name"] not in [v[0] for v in loopvars.values()]:
+            try:
+                low.env[x["name"]] = low.expr(init_of(x))
+            except Exception:
+                pass
+    idsym, lvsym = sp.Symbol(idp), sp.Symbol(lvl)
+    g = cfront.CCFG(fn)
+    v = g.view()
+    ids, levels, arms = [], [], set()
+    for n in g.nodes:
+        if not isinstance(n.c, dict):
+            continue
+        here = [c for c in calls if any(y is c for y in walk(n.c))]
+        if not here:
+            continue
+        encl = [lv for lv in loopvars.values() if any(y is here[0] for y in walk(lv[2]))]
+        for b, lab in v.controlling_branches(n):
+            if b.kind == "branch":
+                arms.add((render(b.c).replace(" ", ""), lab))
+        for c in here:
+            a = cfront.call_args(c)
+            try:
+                t_id = low.expr(a[idpos])
+                t_lv = low.expr(a[lvpos])
+            except Exception as e:
+                return None, "argument not understood: %s" % e
+            vals = [{}]
+            for k, rng, _ in encl:
+                vals = [dict(d, **{k: r}) for d in vals for r in rng]
+            for d in vals:
+                sub = {sp.Symbol(k): r for k, r in d.items()}
+                ids.append(sp.expand(t_id.subs(sub)))
+                levels.append(sp.expand(t_lv.subs(sub)))
+    postdec = {("%s--" % lvl, "T")}
+    guards_ok = None
+    if arms == postdec:
+        guards_ok, want_level = True, lvsym
+    else:
+        want_level = lvsym - 1
+        nonzero = {("(%s==0)" % lvl, "F"), ("(%s!=0)" % lvl, "T"), ("(%s>0)" % lvl, "T"), (lvl, "T"), ("(!%s)" % lvl, "F"), ("!%s" % lvl, "F"),
+                   ("(0==%s)" % lvl, "F"), ("(0!=%s)" % lvl, "T"), ("(0<%s)" % lvl, "T"), ("(%s<1)" % lvl, "F"), ("(%s>=1)" % lvl, "T")}
+        if len(arms) == 1 and arms <= nonzero:
+            guards_ok = True
+        elif not arms:
+            guards_ok = False
+    found = "children %s at level %s under %s" % (sorted(map(str, ids)), sorted(set(map(str, levels))), sorted(arms))
+    if guards_ok is None:
+        return None, "the test that decides whether levels remain was not recognised; " + found
+    affine = all(sp.Poly(t, idsym).degree() <= 1 and not (t.free_symbols - {idsym}) for t in ids) if ids else False
+    if not affine:
+        return None, "child ids are not affine in the id; " + found
+    want = sorted([4 * idsym + j for j in range(4)], key=str)
+    ok = guards_ok and sorted(ids, key=str) == want and all(sp.expand(t - want_level) == 0 for t in levels)
+    return bool(ok), found
 
 
 def fill_children_rules(chk, rule="R12.9"):
